@@ -10,6 +10,8 @@
     chanread <hex>     -> "ok <consumed> <threaded> <closed> <limit> <val>*" | "err"   (janet_chanat_unmarshal on those bytes)
   <cdesc> = <val> { "|" <cobj> } "#" [ <def> { "|" <def> } ] "#" [ <env> { "|" <env> } ]
   <cobj> = <obj> | F <defidx> <envidx>*
+         | Y <flags> <frame> <stackstart> <stacktop> <maxstack> <env|_> <child|_> <last> <nframes>
+             (<frameflags> <prevframe> <pcdiff> <func> <envidx|_> <nslots> <val>^nslots)^nframes
   <def>  = D <flags> <slotcount> <arity> <min> <max> <name|_> <source|_> C <k> <val>^k S <k> (<birth> <death> <slot> <val>)^k
            B <hex of LE words|-> E <k> <int>^k D <k> <idx>^k M <k> (<line> <col>)^k X <k> <word>^k
   <env>  = Ed <val>* | Es <offset> <length> <val>
@@ -147,8 +149,35 @@ def parseNats : List String → Option (List Nat)
     let vs ← parseNats ts
     some (v :: vs)
 
+def parseFrames : Nat → List String → Option (List Frame × List String)
+  | 0, ts => some ([], ts)
+  | k + 1, ff :: pf :: pc :: fn :: ev :: ns :: rest => do
+    let flags ← ff.toInt?
+    let prevframe ← pf.toNat?
+    let pcdiff ← pc.toNat?
+    let func ← parseVal fn
+    let env ← if ev = "_" then some none else ev.toNat?.map some
+    let n ← ns.toNat?
+    let slots ← parseVals (rest.take n)
+    if rest.length < n then none else do
+      let (more, rest') ← parseFrames k (rest.drop n)
+      some (⟨flags, prevframe, pcdiff, func, env, slots⟩ :: more, rest')
+  | _, _ => none
+
 def parseCObj (toks : List String) : Option CObj :=
   match toks with
+  | "Y" :: fl :: fr :: ss :: st :: ms :: ev :: ch :: la :: nf :: rest => do
+    let flags ← fl.toInt?
+    let frame ← fr.toNat?
+    let stackstart ← ss.toNat?
+    let stacktop ← st.toNat?
+    let maxstack ← ms.toNat?
+    let env ← parseProto ev
+    let child ← parseProto ch
+    let last ← parseVal la
+    let n ← nf.toNat?
+    let (frames, rest') ← parseFrames n rest
+    if rest' = [] then some (.fiber flags frame stackstart stacktop maxstack frames env child last) else none
   | "F" :: di :: envs => do
     let d ← di.toNat?
     let es ← parseNats envs
@@ -266,14 +295,18 @@ def parseCDesc (toks : List String) : Option (Val × Heap) :=
 def showNats (ns : List Nat) : String := String.join (ns.map fun n => s!" {n}")
 def showInts (ns : List Int) : String := String.join (ns.map fun n => s!" {n}")
 
+def showOpt : Option Val → String
+  | none => "_"
+  | some v => showVal v
+
 def showCObj : CObj → String
   | .data o => showObj o
   | .func d es => s!"F {d}" ++ showNats es
   | .abs _ _ _ => "X?"
-
-def showOpt : Option Val → String
-  | none => "_"
-  | some v => showVal v
+  | .fiber flags frame ss st ms frames env child last =>
+    s!"Y {flags} {frame} {ss} {st} {ms} {showOpt env} {showOpt child} {showVal last} {frames.length}" ++
+      String.join (frames.map fun fr => s!" {fr.flags} {fr.prevframe} {fr.pcdiff} {showVal fr.func} " ++
+        (match fr.env with | some e => toString e | none => "_") ++ s!" {fr.slots.length}" ++ showVals fr.slots)
 
 def showDef (d : Def) : String :=
   s!"D {d.flags} {d.slotcount} {d.arity} {d.minArity} {d.maxArity} {showOpt d.name} {showOpt d.source}"
